@@ -132,9 +132,9 @@ func judgeC02(h History) (string, string) {
 		// the same entry any more; whether it is still seen as a link depends on timing
 		exception := false
 		if b != nil && b.Linkname != "" && st.Linkname == "" && st.Mode == b.Mode {
-			c := *b
+			c := b.Clone()
 			c.Linkname = ""
-			if wireIdentity(&c) == wireIdentity(st) {
+			if wireIdentity(c) == wireIdentity(st) {
 				exception = true
 			}
 		}
